@@ -97,6 +97,27 @@ func dumpSlash(c *Chain) []string {
 		it.Close()
 	}
 	out = append(out, "E "+strings.Join(es, ","))
+	// fee paid from stake: the per-backer record of what was taken, per dispute (hash)
+	var ks []string
+	seenHash := map[string]bool{}
+	if it, err := c.App.DisputeKeeper.Disputes.Iterate(ctx, nil); err == nil {
+		for ; it.Valid(); it.Next() {
+			kv, _ := it.KeyValue()
+			if seenHash[string(kv.Value.HashId)] {
+				continue
+			}
+			seenHash[string(kv.Value.HashId)] = true
+			if rec, err := c.App.ReporterKeeper.FeePaidFromStake.Get(ctx, kv.Value.HashId); err == nil {
+				var os []string
+				for _, o := range rec.TokenOrigins {
+					os = append(os, fmt.Sprintf("%s.%s.%s", c.nameOf(o.DelegatorAddress), c.valName(o.ValidatorAddress), o.Amount))
+				}
+				ks = append(ks, fmt.Sprintf("%d:%s:%s", kv.Key, rec.Total, strings.Join(os, "+")))
+			}
+		}
+		it.Close()
+	}
+	out = append(out, "K "+strings.Join(ks, ","))
 	return out
 }
 
